@@ -1,4 +1,5 @@
 CONSTANTS
+  Menu <- KindsCore
   MaxLen = 3
   ContOpts <- ContOptsTwo
   Envs <- EnvsOne
